@@ -444,6 +444,38 @@ func RandomSym(r *rand.Rand, n int) SymScript {
 	return sc
 }
 
+// ShrinkSym is a script in which every store that can shrink does so right after it grew: post an article then
+// delete one, create a category then delete it, ban until a date then permanently (shorter YAML), create an account
+// and update it at once.  After a kill inside the growing update, the next (smaller) update meets whatever the dead
+// process left behind (a longer temp file, a hard link, ...).
+func ShrinkSym(r *rand.Rand) SymScript {
+	w := SymWorld{Board: []int{900}, BansFile: r.Intn(2) == 1, Accts: [][2]any{{"alice", 800}, {"bob", 801}},
+		Cats: [][2]any{{[]string{"General"}, 3}}, Arts: [][3]any{{[]string{"General"}, 1, 700}}}
+	if w.BansFile {
+		w.Bans = [][2]any{{"10.0.0.1", 2}}
+	}
+	n := 200
+	fresh := func() int { n++; return n }
+	g := []string{"General"}
+	blocks := [][]SymUpdate{
+		{{Kind: "news_post", Path: g, Parent: 1, R: fresh()}, {Kind: "news_delart", Path: g, ID: 1}},
+		{{Kind: "news_cat", Path: []string{}, Name: "Archive", Type: 3}, {Kind: "news_post", Path: []string{"Archive"}, R: fresh()},
+			{Kind: "news_delitem", Path: []string{"Archive"}}},
+		{{Kind: "ban_add", IP: "192.168.7.77", T: 3}, {Kind: "ban_add", IP: "192.168.7.77", T: 0}},
+		{{Kind: "acct_create", Login: "dave", R: fresh()}, {Kind: "acct_update", Login: "dave", R: fresh()},
+			{Kind: "acct_rename", Login: "dave", To: "erin", R: fresh()}, {Kind: "acct_delete", Login: "erin"}},
+		{{Kind: "acct_update", Login: "alice", R: fresh()}, {Kind: "acct_update", Login: "alice", R: fresh()}},
+		{{Kind: "board_post", P: fresh()}, {Kind: "board_post", P: fresh()}},
+		{{Kind: "news_post", Path: g, R: fresh()}, {Kind: "news_post", Path: g, R: fresh()}, {Kind: "news_delart", Path: g, ID: 2}},
+	}
+	r.Shuffle(len(blocks)-1, func(i, j int) { blocks[i], blocks[j] = blocks[j], blocks[i] })
+	sc := SymScript{World: w, Src: "shrink"}
+	for _, b := range blocks {
+		sc.Steps = append(sc.Steps, b...)
+	}
+	return sc
+}
+
 // ---- files -------------------------------------------------------------------------------------------------------
 
 func ReadScripts(path string) ([]Script, error) {
